@@ -39,6 +39,9 @@ def jobs(tier):
     for sh in b["shapes"]:
         for leaf in b["leaves"]:
             out.append({"name": "ops/%s/%s" % (sh, leaf), "kind": "ops", "shape": sh, "leaf": leaf, "depth": b["depth"], "tier": tier})
+    for sh in ("nested+late", "cfglist+late", "nested+env"):
+        for leaf in ["int09", "str-norm", "list-int", "dict-typed", "bool"]:
+            out.append({"name": "ops/%s/%s" % (sh, leaf), "kind": "ops", "shape": sh, "leaf": leaf, "depth": b["depth"], "tier": tier})
     for leaf in (b["leaves"] if tier == "thorough" else ["int09", "str-regex-req", "list-int"]):
         out.append({"name": "ops/cfglist2-v/%s" % leaf, "kind": "ops", "shape": "cfglist2-v", "leaf": leaf, "depth": b["depth"], "tier": tier})
     for leaf in (["int09", "str-norm", "list-int", "dict-typed", "str-regex-req", "challenge", "bool"] if tier != "thorough" else b["leaves"]):
